@@ -791,12 +791,22 @@ package fs
 //@   loop 1 invariant forall y, z {at(at(viso.rootDir, y).files, z).rLBA} :: base(viso.rootDir) <= y && y < end(viso.rootDir) && base(at(viso.rootDir, y).files) <= z && z < end(at(viso.rootDir, y).files) ==> at(at(viso.rootDir, y).files, z).rLBA + secs(at(at(viso.rootDir, y).files, z).size) <= viso.filesSizeSectors @files-end-before-the-running-total
 //@   loop 2 invariant forall y, z {at(at(viso.rootDir, y).files, z).rLBA} :: base(viso.rootDir) <= y && y < end(viso.rootDir) && base(at(viso.rootDir, y).files) <= z && z < end(at(viso.rootDir, y).files) ==> at(at(viso.rootDir, y).files, z).rLBA + secs(at(at(viso.rootDir, y).files, z).size) <= viso.filesSizeSectors @files-end-before-the-running-total
 
-// the order of the list of files handed to read(): ASSUMED (slices.SortFunc over a copy of every
-// directory's files; the comparison is by first sector)
+// The list of files handed to read(). Its body is verified for what a contract within reach can state: the list is a
+// new array, it is ordered by first sector (non-strictly), and the comparator orders by first sector ONLY - files that
+// share a first sector (an empty file and its successor) are left to slices.SortFunc, which keeps an already ordered
+// input as it is (ASSUMED, beyond its documentation: conformance-tested), so they stay in scan order, empty file first.
+// That the scan order is the layout order (the link wfISO needs) stays an ASSUMED clause of NewVirtualISO.
+//@ func dirItemList.collectFiles$1 params(a, b)
+//@   tags C04,C09
+//@   safetytags C04,C09
+//@   ensures[C09] result == (a.rLBA < b.rLBA ? 0 - 1 : (a.rLBA > b.rLBA ? 1 : 0)) @def
 //@ func dirItemList.collectFiles results(r)
-//@   tags C04,C08
-//@   trusted
+//@   tags C04,C08,C09
+//@   alloc (1<<62) * 4
 //@   ensures fresh(r.$arr) || len(r) == 0
+//@   ensures[C09] forall a, b {at(r, a).rLBA, at(r, b).rLBA} :: base(r) <= a && a < b && b < end(r) ==> at(r, a).rLBA <= at(r, b).rLBA @ordered-by-first-sector
+//@   loop 1 invariant fresh(ret.$arr) || (len(ret) == 0 && ret.$arr == 0)
+//@   loop 2 invariant fresh(ret.$arr) || (len(ret) == 0 && ret.$arr == 0)
 
 //@ func VirtualISO.buildFSStructures results(err)
 //@   tags C04,C08,C13
@@ -830,21 +840,23 @@ package fs
 //@   ensures[C13] forall g {fopen[g]} :: fopen[g] ==> old(fopen[g]) @directories-closed-again
 //@   ensures[C08] err == nil ==> built(viso) @volume-structure
 
-// PARAM.SFO parsing: no content of the file can make it panic, and the value returned is the one an index entry
-// announces: DataLen-1 bytes (the terminator dropped; nothing for DataLen 0) at DataTableStart+DataOffset. Which
-// entry (the one whose key is the field name) is not stated: the key text goes through bufio, whose contract says
-// nothing about content.
+// PARAM.SFO parsing: no content of the file can make it panic, and the value returned is the one announced by an
+// index entry WHOSE KEY IS THE FIELD NAME: the key text is the NUL-terminated string at KeyTableStart+KeyOffset of
+// that entry (32-bit wrap as in the code), the value is DataLen-1 bytes (the terminator dropped; nothing for
+// DataLen 0) at DataTableStart+DataOffset of the same entry.
 //@ spec sfoCount(c []int) int = le32(c, 16)
 //@ spec sfoDataLen(c []int, j int) int = le32(c, 24 + 16 * j)
 //@ spec sfoDataAt(c []int, j int) int = le32(c, 12) + le32(c, 32 + 16 * j)
+//@ spec sfoKeyAt(c []int, j int) int = (le32(c, 8) + le16(c, 20 + 16 * j)) % 4294967296
+//@ pred sfoKeyIs(c []int, k int, field str) := (forall q {field[q]} :: 0 <= q && q < len(field) ==> c[k + q] == field[q]) && c[k + len(field)] == 0
 //@ func sfoField results(v, err)
 //@   tags C04,C08
 //@   wrapok hdr.KeyTableStart+uint32(e.KeyOffset)
 //@   requires f != nil && fpos[f] == 0
 //@   modifies fpos, iofaults
 //@   ensures iofaults >= old(iofaults) && fsw == old(fsw)
-//@   ensures[C08] err == nil ==> exists j :: 0 <= j && j < sfoCount(fcontent[f]) && len(v) == max(sfoDataLen(fcontent[f], j) - 1, 0) && (forall q {v[q]} :: 0 <= q && q < len(v) ==> v[q] == fcontent[f][sfoDataAt(fcontent[f], j) + q]) @the-value-an-index-entry-announces
-//@   loop 1 invariant iofaults >= old(iofaults) && fsw == old(fsw) && idxEntry == nil && hdr.DataTableStart == le32(fcontent[f], 12) && hdr.TableEntriesCount == le32(fcontent[f], 16)
+//@   ensures[C08] err == nil ==> exists j :: 0 <= j && j < sfoCount(fcontent[f]) && sfoKeyIs(fcontent[f], sfoKeyAt(fcontent[f], j), field) && len(v) == max(sfoDataLen(fcontent[f], j) - 1, 0) && (forall q {v[q]} :: 0 <= q && q < len(v) ==> v[q] == fcontent[f][sfoDataAt(fcontent[f], j) + q]) @the-value-of-the-entry-whose-key-is-the-field-name
+//@   loop 1 invariant iofaults >= old(iofaults) && fsw == old(fsw) && idxEntry == nil && hdr.DataTableStart == le32(fcontent[f], 12) && hdr.TableEntriesCount == le32(fcontent[f], 16) && hdr.KeyTableStart == le32(fcontent[f], 8)
 
 //@ func VirtualISO.getTitleID results(id, err)
 //@   tags C04,C13,C01
